@@ -364,57 +364,14 @@ func c12Frame(r *core.Run) {
 // []rune (or any non-byte sequence) bounds characters, not bytes.
 func byteBounded(fn *core.FuncInfo, arg ast.Expr, at token.Pos, limit constant.Value) (bool, string) {
 	info := fn.Pkg.TypesInfo
-	isBytes := func(e ast.Expr) bool {
-		t := info.TypeOf(e)
-		if t == nil {
-			return false
+	isBytes := func(e ast.Expr) bool { return isBytesExpr(info, e) }
+	constLE := func(e ast.Expr, minus int64) (string, bool) { return constWithin(info, e, minus, limit) }
+	sliceBound := func(e ast.Expr) (bool, string) { return sliceBoundWithin(info, e, limit) }
+	// a bounding helper of the package: f(text) returning text cut to a constant within the limit
+	if c, ok := ast.Unparen(arg).(*ast.CallExpr); ok && len(c.Args) == 1 && curWorld != nil {
+		if g := curWorld.Info(core.Callee(info, c)); g != nil && g.Pkg == fn.Pkg && g.Decl.Body != nil {
+			return boundingHelper(g, limit)
 		}
-		switch u := t.Underlying().(type) {
-		case *types.Basic:
-			return u.Info()&types.IsString != 0
-		case *types.Slice:
-			b, ok := u.Elem().Underlying().(*types.Basic)
-			return ok && b.Kind() == types.Byte
-		}
-		return false
-	}
-	constLE := func(e ast.Expr, minus int64) (string, bool) {
-		c := core.ConstVal(info, e)
-		if c == nil || c.Kind() != constant.Int {
-			return "", false
-		}
-		c2 := constant.BinaryOp(c, token.SUB, constant.MakeInt64(minus))
-		return c.ExactString(), constant.Compare(c2, token.LEQ, limit)
-	}
-	// sliceBound: e is X[:K] with byte-indexed X and K <= limit (or min(len(X), K)).
-	sliceBound := func(e ast.Expr) (bool, string) {
-		se, ok := ast.Unparen(e).(*ast.SliceExpr)
-		if !ok || se.High == nil {
-			return false, ""
-		}
-		if se.Low != nil {
-			if c := core.ConstVal(info, se.Low); c == nil || constant.Sign(c) < 0 {
-				return false, "non-constant lower slice bound"
-			}
-		}
-		if !isBytes(se.X) {
-			return false, "'" + core.ExprString(se.X) + "' is sliced by elements of type " + info.TypeOf(se.X).String() + ", not by bytes"
-		}
-		if k, ok := constLE(se.High, 0); ok {
-			return true, "sliced to " + k + " bytes"
-		} else if k != "" {
-			return false, "sliced to " + k + " bytes, beyond the limit"
-		}
-		if c, ok := se.High.(*ast.CallExpr); ok {
-			if id, ok := c.Fun.(*ast.Ident); ok && id.Name == "min" && info.Uses[id] == types.Universe.Lookup("min") {
-				for _, a := range c.Args {
-					if k, ok := constLE(a, 0); ok {
-						return true, "sliced to min(.., " + k + ") bytes"
-					}
-				}
-			}
-		}
-		return false, "slice bound is not a constant within the limit"
 	}
 	if ok, why := sliceBound(arg); ok {
 		return true, why
@@ -779,4 +736,133 @@ func c12Pure(r *core.Run, rule string) {
 	keep = append(keep, reachFrom(w, keep, pCodec, core.Module+"/pkg/util/bytes")...)
 	pureOfRuntimeState(r, rule, "encoding / decoding of a message", keep, nil)
 	noPooledResult(r, rule, keep)
+}
+
+func isBytesExpr(info *types.Info, e ast.Expr) bool {
+	t := info.TypeOf(e)
+	if t == nil {
+		return false
+	}
+	switch u := t.Underlying().(type) {
+	case *types.Basic:
+		return u.Info()&types.IsString != 0
+	case *types.Slice:
+		b, ok := u.Elem().Underlying().(*types.Basic)
+		return ok && b.Kind() == types.Byte
+	}
+	return false
+}
+func constWithin(info *types.Info, e ast.Expr, minus int64, limit constant.Value) (string, bool) {
+	c := core.ConstVal(info, e)
+	if c == nil || c.Kind() != constant.Int {
+		return "", false
+	}
+	c2 := constant.BinaryOp(c, token.SUB, constant.MakeInt64(minus))
+	return c.ExactString(), constant.Compare(c2, token.LEQ, limit)
+}
+// sliceBoundWithin: e is X[:K] with byte-indexed X and K <= limit (or min(len(X), K)).
+func sliceBoundWithin(info *types.Info, e ast.Expr, limit constant.Value) (bool, string) {
+	se, ok := ast.Unparen(e).(*ast.SliceExpr)
+	if !ok || se.High == nil {
+		return false, ""
+	}
+	if se.Low != nil {
+		if c := core.ConstVal(info, se.Low); c == nil || constant.Sign(c) < 0 {
+			return false, "non-constant lower slice bound"
+		}
+	}
+	if !isBytesExpr(info, se.X) {
+		return false, "'" + core.ExprString(se.X) + "' is sliced by elements of type " + info.TypeOf(se.X).String() + ", not by bytes"
+	}
+	if k, ok := constWithin(info, se.High, 0, limit); ok {
+		return true, "sliced to " + k + " bytes"
+	} else if k != "" {
+		return false, "sliced to " + k + " bytes, beyond the limit"
+	}
+	if c, ok := se.High.(*ast.CallExpr); ok {
+		if id, ok := c.Fun.(*ast.Ident); ok && id.Name == "min" && info.Uses[id] == types.Universe.Lookup("min") {
+			for _, a := range c.Args {
+				if k, ok := constWithin(info, a, 0, limit); ok {
+					return true, "sliced to min(.., " + k + ") bytes"
+				}
+			}
+		}
+	}
+	return false, "slice bound is not a constant within the limit"
+}
+
+// boundingHelper: g(p) returns p cut to a constant number of bytes within the limit on every path:
+// a sequence of `if len(p) > K { return p[:K2] }` guards and returns of bounded slices, closed by `return p`
+// after a guard that lets only texts of at most K <= limit bytes through.
+func boundingHelper(g *core.FuncInfo, limit constant.Value) (bool, string) {
+	info := g.Pkg.TypesInfo
+	ps := paramObjs(g)
+	if len(ps) != 1 {
+		return false, "helper " + g.Obj.Name() + " does not take the text alone"
+	}
+	p := ps[0]
+	if sig := g.Obj.Type().(*types.Signature); sig.Results().Len() != 1 {
+		return false, "helper " + g.Obj.Name() + " does not return one value"
+	}
+	guardK := ""
+	for _, st := range g.Decl.Body.List {
+		switch x := st.(type) {
+		case *ast.IfStmt:
+			be, ok := ast.Unparen(x.Cond).(*ast.BinaryExpr)
+			if !ok || x.Else != nil || x.Init != nil || (be.Op != token.GTR && be.Op != token.GEQ) {
+				return false, "helper " + g.Obj.Name() + ": a condition the rule does not follow"
+			}
+			call, ok := ast.Unparen(be.X).(*ast.CallExpr)
+			if !ok || len(call.Args) != 1 || core.ObjOf(info, call.Args[0]) != p || !isBytesExpr(info, call.Args[0]) {
+				return false, "helper " + g.Obj.Name() + ": the guard does not measure the byte length of its parameter"
+			}
+			if fid, ok := call.Fun.(*ast.Ident); !ok || info.Uses[fid] != types.Universe.Lookup("len") {
+				return false, "helper " + g.Obj.Name() + ": the guard does not measure the byte length of its parameter"
+			}
+			minus := int64(0)
+			if be.Op == token.GEQ {
+				minus = 1
+			}
+			k, ok := constWithin(info, be.Y, minus, limit)
+			if !ok {
+				return false, "helper " + g.Obj.Name() + ": the untruncated text passes the guard with up to " + k + " bytes"
+			}
+			if len(x.Body.List) != 1 {
+				return false, "helper " + g.Obj.Name() + ": guard body is not a single return"
+			}
+			rs, ok := x.Body.List[0].(*ast.ReturnStmt)
+			if !ok || len(rs.Results) != 1 {
+				return false, "helper " + g.Obj.Name() + ": guard body is not a single return"
+			}
+			se, isSlice := ast.Unparen(rs.Results[0]).(*ast.SliceExpr)
+			if !isSlice || core.ObjOf(info, se.X) != p {
+				return false, "helper " + g.Obj.Name() + ": the guarded return is not a slice of the parameter"
+			}
+			if ok, why := sliceBoundWithin(info, rs.Results[0], limit); !ok {
+				return false, "helper " + g.Obj.Name() + ": " + why
+			}
+			guardK = k
+		case *ast.ReturnStmt:
+			if len(x.Results) != 1 {
+				return false, "helper " + g.Obj.Name() + ": bare return"
+			}
+			if core.ObjOf(info, x.Results[0]) == p {
+				if guardK == "" {
+					return false, "helper " + g.Obj.Name() + " returns the whole text"
+				}
+				return true, "helper " + g.Obj.Name() + ": text kept when len <= " + guardK + ", otherwise sliced within the limit"
+			}
+			if se, isSlice := ast.Unparen(x.Results[0]).(*ast.SliceExpr); isSlice && core.ObjOf(info, se.X) == p {
+				if ok, why := sliceBoundWithin(info, x.Results[0], limit); ok {
+					return true, "helper " + g.Obj.Name() + ": " + why
+				} else {
+					return false, "helper " + g.Obj.Name() + ": " + why
+				}
+			}
+			return false, "helper " + g.Obj.Name() + ": returns something other than its (cut) parameter"
+		default:
+			return false, "helper " + g.Obj.Name() + ": a statement the rule does not follow"
+		}
+	}
+	return false, "helper " + g.Obj.Name() + ": no final return"
 }
